@@ -309,6 +309,27 @@ fn c16_rate_and_reset() {
 }
 
 // ------------------------------------------------------------------------------------------------
+// "The next drain starts from empty" also when pushes raced this drain: a pusher that loaded `use_primary` before the swap lands
+// its `late` pushes on the retired side after `drain()` read the count. Whatever `late` is, the side must be empty (count == 0)
+// once the Drain is dropped -- otherwise a later drain of this side yields values that were already reported.
+// One interleaving class (late pushes strictly between drain() and Drain::drop), every (pushed, late, capacity): complete for it.
+pub fn c16_drop_after_late_push_body(count: usize, late: usize, cap: usize) {
+    if late > usize::MAX - count { return; }
+    let r = Reservoir::with_capacity(0);
+    r.count.store(count + late, Relaxed);
+    let yielded = if count > cap { cap } else { count };
+    {
+        let _d = Drain { reservoir: &r, unsampled_len: count, len: yielded, idx: 0 };
+    }
+    assert!(r.count.load(Relaxed) == 0, "C16 the next drain starts from empty: Drain::drop leaves count == 0 even after late pushes");
+}
+#[cfg(kani)]
+#[kani::proof]
+fn c16_drop_after_late_push() {
+    c16_drop_after_late_push_body(kani::any(), kani::any(), kani::any());
+}
+
+// ------------------------------------------------------------------------------------------------
 // Two push/drain cycles on one Reservoir, straight from the statement (capacity <= 2, <= cap+2 pushes per cycle,
 // all values / draws symbolic).  Cycle-1 values are a[..], cycle-2 values b[..].
 #[cfg(kani)]
